@@ -503,6 +503,11 @@ func (cs *connState) handleRequest() bool {
 		return false
 	}
 
+	// Start the tag while recvMu is still held: a Tflush that is received
+	// after this request is then guaranteed to find the tag and to wait for
+	// it, instead of being answered while this request is about to run.
+	tagStarted := (err == nil || err == io.EOF) && cs.StartTag(tag)
+
 	// Ensure that another goroutine is available to receive from cs.t.
 	if atomic.LoadInt32(&cs.recvIdle) == 0 {
 		cs.pendingWg.Add(1)
@@ -526,8 +531,8 @@ func (cs *connState) handleRequest() bool {
 		return true
 	}
 
-	// Try to start the tag.
-	if !cs.StartTag(tag) {
+	// Was the tag already in use?
+	if !tagStarted {
 		cs.server.log.Printf("no valid tag [%05d]", tag)
 		// Nothing we can do at this point; client is bogus.
 		return true
